@@ -186,7 +186,7 @@ def stepWith (ctx : Ctx) (tg : List Expr) (ws : List (Expr × Int)) (env start :
   let base : Env := (List.range ctx.length).map fun i =>
     let w := (ctx.shape i).width
     let bits : Int := (List.range w).foldl (fun acc b =>
-      let src := if tg.any (fun t => drivenBy t i b ctx) then start.val i else env.val i
+      let src := if tg.any (fun t => drivenP ctx t i b) then start.val i else env.val i
       acc + (if ibit src b then 2 ^ b else 0)) 0
     norm (ctx.shape i) bits
   applyWrites ctx env ws base
@@ -212,7 +212,7 @@ def fsmSpecStep (ctx : Ctx) (items : List FProg) (d : String) (env start : Env) 
 /-- per bit: where a target of `tg` drives the bit and `keep` holds for the signal take `new`, else `old` -/
 def mergeDrivenT (ctx : Ctx) (tg : List Expr) (keep : Nat → Bool) (new old : Env) : Env :=
   (List.range ctx.length).map fun i =>
-    selectBits (ctx.shape i) (fun b => tg.any (fun t => drivenBy t i b ctx) && keep i) (new.val i) (old.val i)
+    selectBits (ctx.shape i) (fun b => tg.any (fun t => drivenP ctx t i b) && keep i) (new.val i) (old.val i)
 
 /-- **The active edge of the synchronous domain `d`**, with the domain's reset asserted or not: with reset, the driven
 bits of the signals that are not reset-less take their initial values and the FSMs of the domain are back in their
